@@ -15,7 +15,7 @@ pub static PROP: Prop = Prop {
     title: "Dagger and spiders give the hypergraph-category (Frobenius) structure",
     check,
     max_tape: (300, 520),
-    cases: (60_000, 1_000_000),
+    cases: (150_000, 1_500_000),
     both_profiles: false,
     rule: "one group per case: (a) dagger laws on generated diagrams and composable pairs, strict and lax; (b) spider fusion on pairs of generated labelled cospans with matching boundary types (non-injective / non-surjective legs, empty node sets), plus identity/symmetry/half-spider as spiders; (c) spider construction on raw legs whose codomain is |w|-1, |w| or |w|+1; non-trivial = (a) s != t and >= 1 hyperedge, (b) at least one merge and at least one node missed by a leg, (c) a rejected construction; distinct = hash of the generated data",
     assumptions: &["cospan composition on the plain model (union-find gluing) is the specification of spider fusion"],
@@ -116,6 +116,15 @@ fn fusion(t: &mut Tape, ctx: &mut Ctx, al: gen::Alpha) -> CheckResult {
         .ok_or_else(|| ctx.fail("lax-spider", "lax spider returned None on legs that land in the node list"))?;
     let got_l = wf(ctx, "lax-spider", from_lax(&ls), "lax spider")?;
     ensure!(ctx, got_l == Lax { d: a.clone(), q: vec![] }, "lax-spider", "lax spider is not the discrete cospan: {}", got_l.pretty());
+    // lax fusion: compose the lax spiders (checked and unchecked), strictify
+    ctx.sub("lax-spider-fusion");
+    let nb = b.nodes.len();
+    let lsb = LOH::spider(sv::ff(b.s.clone(), nb), sv::ff(b.t.clone(), nb), obs(&b.nodes))
+        .ok_or_else(|| ctx.fail("lax-spider", "lax spider returned None on legs that land in the node list"))?;
+    let lfused = open_hypergraphs::category::Arrow::compose(&ls, &lsb).ok_or_else(|| ctx.fail("lax-spider-fusion", "lax composition of spiders undefined although types match"))?;
+    let lf = wf(ctx, "spider-wf", sv::from_strict(&lfused.to_strict()), "strict(lax spider1 ; lax spider2)")?;
+    require_iso(ctx, "lax-spider-fusion", &lf, &want, "lax spider fusion")?;
+    ensure!(ctx, lf.edges.is_empty(), "lax-spider-fusion", "fused lax spider is not discrete");
     // identities, symmetries and half spiders are spiders
     ctx.sub("identity-twist-are-spiders");
     let w = a.nodes.clone();
